@@ -116,6 +116,11 @@ func replyID(m p9p.Message) int {
 }
 
 func (h *scriptHandler) Handle(ctx context.Context, msg p9p.Message) (p9p.Message, error) {
+	// Entering a handler is visible to harness code that inspects h.Calls
+	// (C07 samples the flushed request's context): make it a hooked
+	// operation on the object those inspections yield on, so that the state
+	// cache keeps the two orders apart.
+	vsched.Yield("handle.enter", vsched.CtxObj)
 	inv := &invocation{Msg: msg, Ctx: ctx}
 	h.Calls = append(h.Calls, inv)
 	id := reqID(msg)
